@@ -132,7 +132,7 @@ fn pick<T: Copy>(all: &[T], sel: u8) -> T {
 }
 
 const DB_U: [u32; 3] = [0, 2, 1000];
-const DB_F: [f64; 3] = [0.0, 0.5, 7.5];
+const DB_F: [f64; 7] = [0.0, 0.5, 7.5, -1.0, f64::NAN, f64::INFINITY, f64::NEG_INFINITY];
 
 /// result of one operation in a comparable, printable form
 fn info_str(i: UpdateInfo) -> String {
